@@ -94,8 +94,9 @@ def run(ctx):
             nm = names.get(tag, "ray dir %d" % (tag - 10))
             rp = C.write_replay("C06", {"kind": "table entry differs from geometry", "table": nm,
                                         "square": s})
-            # masks and rays are internal; a wrong leaper entry is directly a wrong attack set
-            violations.append({"replay": rp})
+            # masks and rays are internal (every lookup built from them was compared with the sliding spec above): a correspondence;
+            # a wrong leaper entry is directly a wrong attack set
+            violations.append({"replay": rp, "no_input": tag >= 5})
         evaluations += 64 * 14
 
     # --- random full-board occupancies (structure: only blockers & mask matters) + slow routine
@@ -147,8 +148,10 @@ def run(ctx):
             if want != mv:
                 rp = C.write_replay("C06", {"kind": "mirrored magic lookup differs from engine",
                                             "square": s, "occupancy": occ, "engine": im[2:5],
-                                            "model": str(mv)})
-                violations.append({"replay": rp})
+                                            "model": str(mv),
+                                            "broken": "correspondence engine lookup = the model's magic-table lookup (model/Tables.v); the engine's answer itself "
+                                                      "was compared with the sliding-ray attack set by the legs above"})
+                violations.append({"replay": rp, "no_input": True})
 
     # --- the proof gate itself
     if not gate["ok"]:
